@@ -16,6 +16,7 @@ U: rounding."""
 from fractions import Fraction
 
 from .. import terms as T
+from .. import iters as iters_mod
 from ..folds import find_ariths, get_at, step_increment, is_increment, is_unchanged, havoc_subst
 from ..ivl import IvlModel
 from ..meanci import ConfModel, KINDS, check_mean_interval, F0, F1, F2, unwrap_ok, SubstPath
@@ -208,7 +209,7 @@ def run_cfg(chk, facts, cfg):
                 probs.append('an exit path does not advance both iterators')
                 continue
             pat = tuple('Some' if e[2] is not None else 'None' for e in nx)
-            order = [src.get(e[1]) for e in nx]
+            order = [src.get(e[1]) or iters_mod.source(sx, e[1], sx.loop_records) for e in nx]
             if order != [('op', 'ref', (a_sym,)), ('op', 'ref', (b_sym,))]:
                 probs.append('iterators are not advanced in the order (first sample, second sample)')
                 continue
@@ -432,6 +433,10 @@ def run_cfg(chk, facts, cfg):
                                     for cc, v in rec['cell_havoc'].items():
                                         if v == nx[0][1]:
                                             src = iters.get(rec['cell_init'].get(cc))
+                                    # copied / adapted / re-wrapped / loop-carried iterators: follow the chain to its input
+                                    deep = iters_mod.source(sx, nx[0][1], sx.loop_records)
+                                    if deep is not None:
+                                        src = deep
                                     mods.append((c, apath, hav, src))
                                 elif not is_unchanged(sm, d):
                                     probs.append('a state is updated by something else than the element')
